@@ -112,8 +112,8 @@ type gb struct {
 	ticked bool
 	tick   uint32
 	// host imports (always present in single-module guests)
-	hostloop, hostcb, bounce, hop uint32
-	t0                            uint32
+	hostloop, hostcb, bounce, hop, await uint32
+	t0                                   uint32
 }
 
 func newGB(ticked, hostImports bool) *gb {
@@ -126,6 +126,7 @@ func newGB(ticked, hostImports bool) *gb {
 		g.hostcb = g.m.ImportFunc("env", "hostcb", nil, nil)
 		g.bounce = g.m.ImportFunc("env", "bounce", nil, nil)
 		g.hop = g.m.ImportFunc("env", "hop", nil, nil)
+		g.await = g.m.ImportFunc("env", "await", nil, nil)
 	}
 	g.t0 = g.m.AddType(nil, nil)
 	return g
@@ -475,6 +476,9 @@ func build(cs caseSpec) (*program, error) {
 		return nil, fmt.Errorf("unknown entry %q", cs.Entry)
 	}
 	g.m.ExportFunc("nop", g.fn(&wenc.Code{}))
+	// finite calls for the concurrent-calls family: park in the host until released, then return / trap
+	g.m.ExportFunc("a_ret", g.fn((&wenc.Code{}).Call(g.await)))
+	g.m.ExportFunc("a_trap", g.fn((&wenc.Code{}).Call(g.await).Unreachable()))
 	p.Mods = []modBin{{"guest", g.m.Encode()}}
 	return p, nil
 }
